@@ -200,6 +200,21 @@ def check_write(c, g):
                     o.clear_metadata(compress=cm)
             return p.serialize()
 
+        # independent of embit's own merge code: every signature of the signature stream is in the written scope
+        if w is not None and use_i:
+            try:
+                ws = gen_psbt.split_scopes(w)
+                es = gen_psbt.split_scopes(b"psbt\xff\x00" + ei)[1:]
+                for i, sc in enumerate(es):
+                    for (k, v) in sc:
+                        if k[:1] in (b"\x02", b"\x14", b"\x08") and (k, v) not in ws[1 + i]:
+                            c.fail("a signature of the signature stream is missing from what PSBTView.write_to wrote (mode %d)" % cm,
+                                   dict(info, op="view.write", missing_key=hx(k), input=i))
+                            raise StopIteration
+            except StopIteration:
+                pass
+            except Exception:
+                pass
         exp = attempt(in_memory)
         if exp is not None:
             got = attempt(lambda: PSBT.parse(w).serialize()) if w is not None else None
